@@ -43,7 +43,7 @@ def evaluate(d, tests, tier, extra, no_check=False):
             shutil.copy(so, os.path.join(wt, 'tenpy/linalg/'))
         demo_cmd = [PY, os.path.join(d, demo)] if not demo.startswith('test_') else \
             [PY, '-m', 'pytest', '-q', '-p', 'no:cacheprovider', os.path.join(d, demo)]
-        env_demo = dict(env, PYTHONPATH=wt, TENPY_WORKTREE=wt, TENPY_ROOT=wt, TENPY_TREE=wt)
+        env_demo = dict(env, PYTHONPATH=wt, TENPY_WORKTREE=wt, TENPY_ROOT=wt, TENPY_TREE=wt, TENPY_SEED_WORKTREE=wt)
         r0 = sh(demo_cmd, cwd=wt, env=env_demo, timeout=900)
         res['demo_unpatched_exit'] = r0.returncode
         ap = sh(['git', '-C', wt, 'apply', os.path.join(d, 'patch.diff')])
